@@ -1969,6 +1969,9 @@ static PyObject * matrix_mul(PyObject *self, PyObject *other)
 
 static PyObject * matrix_imul(PyObject *self,PyObject *other)
 {
+  /* no in-place matrix-matrix products (NotImplemented would make
+     Python evaluate A = A*B instead) */
+  if (SpMatrix_Check(other)) PY_ERR_TYPE("invalid inplace operation");
   return matrix_mul_generic(self, other, 1);
 }
 
